@@ -711,7 +711,7 @@ public:
 
   explicit Visitor(Ctx &C) : C(C) {}
   bool shouldVisitImplicitCode() const { return true; }
-  bool shouldVisitTemplateInstantiations() const { return false; }
+  bool shouldVisitTemplateInstantiations() const { return true; }
 
   bool VisitFunctionDecl(FunctionDecl *FD) {
     if (!C.inRepo(FD))
